@@ -244,7 +244,20 @@ class Ref:
         return g
 
     def copy(self):
-        return copy.deepcopy(self)
+        """An independent copy that keeps the node ids themselves (ids may be objects that are equal only
+        to themselves; deep-copying them would produce different ids)."""
+        r = Ref(self.directed, self.removal)
+        r.nodes = {n: copy.deepcopy(a) for n, a in self.nodes.items()}
+        r.graph = copy.deepcopy(self.graph)
+        r.pres = {k: set(v) for k, v in self.pres.items()}
+        r.first = dict(self.first)
+        r.acc_runs = {k: set(v) for k, v in self.acc_runs.items()}
+        r.add_instants = set(self.add_instants)
+        r.orient = dict(self.orient)
+        r.point_closed = {k: set(v) for k, v in self.point_closed.items()}
+        if hasattr(self, '_probes'):
+            r._probes = list(self._probes)
+        return r
 
 
 def selftest():
